@@ -18,13 +18,19 @@ LEVEL_TEXT = ('Bounded model checking of the two local mechanisms the property r
               'the pages the real client is led to request from the real server cover every announcer except the requester, '
               'each once, at most K per page; (c) store(blob, token, port) followed by a value lookup: an announcement made with '
               'the token that was handed out (valid for one refresh) and a valid port is stored and returned with the announced '
-              'port, any other store is refused and stores nothing.')
-LEVEL_NOTE = ('Trusted: z3, the interpreter (paths replayed natively), the stub protocol/peer-manager objects.  Declined (no '
-              'bounded encoding within reach): the hit guarantee in a loss-free network and termination of iterative lookups '
-              'under loss / duplication / reordering - whole-network asyncio schedules over 2..40 nodes.')
-ASSUMPTIONS = ['loop.time() = symbolic non-decreasing integers', 'peer manager stub: peer_is_good is a symbolic three-valued answer',
+              'port, any other store is refused and stores nothing; (d) a reply delivered twice leaves the peer\'s rating exactly as a twin peer '
+              'manager that never saw the copy rates it, at every later instant of a symbolic clock; (e) an iterative node lookup (real '
+              'IterativeNodeFinder on a model event loop) over 2-4 contacts that are each honest, silent, answer garbage, answer an error or '
+              'answer unusable contacts, with the outstanding probes completing in every order: it always ends, probes nobody twice, and '
+              'yields only contacts that replied, none twice, never the searching node.')
+LEVEL_NOTE = ('Trusted: z3, the interpreter (paths replayed natively), the stub protocol/peer-manager objects, the model event loop of (e) '
+              '(call_soon FIFO; one outstanding probe completes at a time, which one is solver-chosen; a probe that raises completes its task '
+              'with the exception).  Declined (no bounded encoding within reach): the hit guarantee in a loss-free network of 2..40 real nodes '
+              '(whole-network asyncio schedules), RPC timeouts as elapsed time, the value finder\'s termination.')
+ASSUMPTIONS = ['(e) contacts answer find_node as RemoteKademliaRPC would hand it to the finder: a list of (id, address, port), an exception (timeout, remote '
+               'error) or a garbage payload; a reply marks the contact as good before the finder sees the payload', 'loop.time() = symbolic non-decreasing integers', 'peer manager stub: peer_is_good is a symbolic three-valued answer',
                'client and server are wired directly (the datagram codec is C17); find_node returns no contacts; make_token is a constant']
-OUTSIDE = ['hit guarantee across a network of nodes', 'termination of _search_round under faults', 'IterativeNodeFinder result validity']
+OUTSIDE = ['hit guarantee across a network of nodes', 'lookups over more than 4 contacts', 'termination of value lookups', 'virtual time to completion']
 
 DAY = constants.DATA_EXPIRATION
 KEY = bytes(range(48))
@@ -160,6 +166,248 @@ def duplicated_response(vm):
     if len(proto.added) > 2 or len(proto.added) < 1:
         return 'VIOLATION: the replying peer is not offered to the routing table (or more than once per copy)'
     return 'ok-good' if a else 'ok-other'
+
+
+# ------------------------------------------------------------------------------------------------ (e) iterative node lookup under faults
+DEBUG_LOOKUP = bool(__import__('os').environ.get('C12_DEBUG'))
+
+
+class Hang(Exception):
+    """An await that nothing will ever complete."""
+
+
+class ModelQueue:
+    def __init__(self, *a, **k):
+        self.items = []
+
+    def put_nowait(self, item):
+        self.items.append(item)
+
+    def qsize(self):
+        return len(self.items)
+
+    def empty(self):
+        return not self.items
+
+    def get(self):
+        return QueueGet(self)
+
+
+class QueueGet:
+    def __init__(self, q):
+        self.q = q
+
+    def outcome(self):
+        if not self.q.items:
+            raise Hang()
+        return self.q.items.pop(0)
+
+    def __vm_await__(self, vm):
+        return self.outcome()
+
+    def __await__(self):
+        return self
+
+    def __iter__(self):
+        return self
+
+    def __next__(self):
+        raise StopIteration(self.outcome())
+
+
+class FinderLoop:
+    """call_soon callbacks run FIFO; tasks (probes) complete one at a time in a solver-chosen order."""
+
+    def __init__(self, vm):
+        self.vm = vm
+        self.ready = []
+        self.pending = []
+
+    def call_soon(self, cb, *args):
+        self.ready.append((cb, args))
+
+    def create_task(self, coro):
+        from harness.C01 import ModelFuture
+        fut = ModelFuture()
+        self.pending.append((coro, fut))
+        return fut
+
+    def time(self):
+        return 1000.0
+
+    def step(self):
+        """Run one callback, or let one outstanding probe complete; False when there is nothing left to do."""
+        if self.ready:
+            cb, args = self.ready.pop(0)
+            cb(*args)
+            return True
+        live = [p for p in self.pending if not p[1].done()]
+        for coro, fut in self.pending:
+            if fut.done() and hasattr(coro, 'close'):
+                coro.close()                       # a cancelled probe never runs
+        self.pending = live
+        if not live:
+            return False
+        i = self.vm.pick('probe_completes', len(live)) if len(live) > 1 else 0
+        coro, fut = live[i]
+        self.pending = [p for p in live if p[1] is not fut]
+        try:
+            result = self.vm.await_(coro)
+        except Exception as e:
+            if not fut.done():
+                fut.set_exception(e)
+            return True
+        if not fut.done():
+            fut.set_result(result)
+        return True
+
+
+class LookupPM:
+    def __init__(self):
+        self.replied = []
+
+    def peer_is_good(self, peer):
+        for node_id in self.replied:
+            if node_id == peer.node_id:
+                return True
+        return None
+
+
+class LookupRpcPeer:
+    def __init__(self, net, peer):
+        self.net, self.peer = net, peer
+
+    async def find_node(self, key):
+        import asyncio
+        from lbry.dht.error import RemoteException
+        how = self.net.behaviour[self.peer.node_id]
+        self.net.probed.append(self.peer.node_id)
+        if how == 1:
+            raise asyncio.TimeoutError()                         # silent node: the RPC times out
+        if how == 3:
+            raise RemoteException('remote error')
+        self.net.pm.replied.append(self.peer.node_id)            # a reply arrived (the protocol records it before the finder sees the payload)
+        if how == 2:
+            return 5                                             # well-formed reply datagram, garbage payload
+        if how == 4:
+            return [(b'\x07' * 48, '10.0.0.1', 70000), (b'\x08' * 48, 5, 'x')]         # contact triple that is not a public address
+        return self.net.triples_known_to(self.peer)
+
+
+class LookupProtocol:
+    external_ip = '9.9.9.9'
+    udp_port = 4444
+
+    def __init__(self, net):
+        self.net = net
+        self.node_id = b'\xaa' * 48
+        self.peer_manager = net.pm
+
+    def get_rpc_peer(self, peer):
+        return LookupRpcPeer(self.net, peer)
+
+
+class LookupNet:
+    def __init__(self, n):
+        self.pm = LookupPM()
+        self.peers = [make_kademlia_peer(bytes([0x10 + i]) * 48, '8.8.8.%d' % (i + 1), udp_port=4000 + i) for i in range(n)]
+        self.behaviour = {}
+        self.probed = []
+
+    def triples_known_to(self, peer):
+        out = [(p.node_id, p.address, p.udp_port) for p in self.peers if p is not peer]      # as RemoteKademliaRPC.find_node returns them
+        out.append((b'\xaa' * 48, '9.9.9.9', 4444))            # everybody also knows the searching node
+        return out
+
+
+def node_lookup(vm, n):
+    """An iterative node lookup over n contacts, each honest / silent / answering garbage / answering an error / answering an unusable
+    contact, probes completing in any order: the lookup ends, and yields only contacts that replied, never twice, never the searcher."""
+    from lbry.dht.protocol.iterative_find import IterativeNodeFinder
+    from harness.C01 import LOOP, VM as C01_VM
+    net = LookupNet(n)
+    for p in net.peers:
+        net.behaviour[p.node_id] = vm.pick('behaviour', 5)
+    loop = FinderLoop(vm)
+    LOOP[0] = loop
+    C01_VM[0] = vm
+    known = 1 + vm.pick('initially_known', min(n, 2))
+    try:
+        finder = IterativeNodeFinder(loop, LookupProtocol(net), b'\x55' * 48, 8, list(net.peers[:known]))
+        finder.__aiter__()
+    except Exception as e:
+        return 'VIOLATION: starting the lookup raised %s' % type(e).__name__
+    yielded = []
+    finished = False
+    for round_no in range(4 * n + 6):
+        steps = 0
+        while finder.iteration_queue.empty():
+            try:
+                more = loop.step()
+            except Exception as e:
+                return 'VIOLATION: the lookup raised %s' % type(e).__name__
+            if not more:
+                break
+            steps += 1
+            if steps > 40 * (n + 1):
+                return 'VIOLATION: the lookup keeps working without ever producing a result or finishing'
+        try:
+            batch = vm.await_(finder.__anext__())
+        except StopAsyncIteration:
+            finished = True
+            break
+        except Hang:
+            return 'VIOLATION: the lookup never finishes (nothing left to run, nothing queued)'
+        except Exception as e:
+            return 'VIOLATION: the lookup raised %s' % type(e).__name__
+        for peer in batch:
+            yielded.append(peer)
+    if not finished:
+        return 'VIOLATION: the lookup does not finish within the bound of rounds'
+    if len(net.probed) > len(set(net.probed)):
+        return 'VIOLATION: a contact was probed twice'
+    seen = []
+    for peer in yielded:
+        if peer.node_id == b'\xaa' * 48:
+            return 'VIOLATION: a node lookup yields the searching node itself'
+        if peer.node_id not in net.pm.replied:
+            return 'VIOLATION: a node lookup yields a contact that never replied'
+        if peer.node_id in seen:
+            return 'VIOLATION: a contact is yielded twice'
+        seen.append(peer.node_id)
+    honest = 0
+    for p in net.peers:
+        if net.behaviour[p.node_id] == 0:
+            honest += 1
+    if DEBUG_LOOKUP:
+        print('seen', seen, 'probed', net.probed, 'replied', net.pm.replied)
+    if honest == n and len(seen) != n:
+        return 'VIOLATION: in an all-honest network a replying contact is not yielded'
+    return 'ok-all-honest' if honest == n else 'ok'
+
+
+def sym_setup(vm, job):
+    if job.get('family') == 'lookup':
+        import asyncio
+        vm.models[id(asyncio.Queue)] = lambda vm_, a, k: vm_.call(ModelQueue, [], {})
+        vm.lazy_async.add('IterativeFinder._send_probe')          # handed to loop.create_task: runs when the model loop lets the probe complete
+
+
+class _LookupNative:
+    def __enter__(self):
+        import asyncio
+        from harness.C01 import LOOP, VM as C01_VM
+        self.saved = (asyncio.Queue, LOOP[0], C01_VM[0])
+        asyncio.Queue = ModelQueue
+
+    def __exit__(self, *a):
+        import asyncio
+        from harness.C01 import LOOP, VM as C01_VM
+        asyncio.Queue, LOOP[0], C01_VM[0] = self.saved
+
+
+def native_setup(nvm, job):
+    return _LookupNative() if job.get('family') == 'lookup' else None
 
 
 class StubProtocol:
@@ -334,6 +582,11 @@ def jobs(tier):
                         loop_bound=200, max_depth=60, cost=30 ** n_events // 100,
                         bounds=dict(announcers=n_peers, events=n_events, event_kinds='announce / clean-up / mark good-bad-unknown',
                                     clock='symbolic non-decreasing, steps up to 3 days')))
+    for n in ((2, 3) if tier == 'quick' else (2, 3, 4)):
+        out.append(dict(name=f'node-lookup-{n}-contacts', family='lookup', fn='node_lookup', args=(n,), loop_bound=400, max_depth=60, cost=20 * 30 ** (n - 1),
+                        bounds=dict(contacts=n, behaviours='honest / silent / garbage payload / remote error / unusable contact triple, per contact',
+                                    completion_order='every order of the outstanding probes', initially_known='1-2 contacts'),
+                        must_reach=('ok', 'ok-all-honest')))
     out.append(dict(name='duplicated-response', family='duplicate', fn='duplicated_response', args=(), loop_bound=200, max_depth=60, cost=20,
                     bounds=dict(history='0-2 earlier failures, request, reply within the timeout, the same reply again after 0..10^4 s, rating asked '
                                 '0..10^4 s later', clock='symbolic'), must_reach=('ok-good',)))
@@ -393,7 +646,19 @@ def _store_port_unchecked(node):
     return False
 
 
+def _no_round_after_failed_probe(node):
+    """Canary: the probe's done-callback returns early when the probe raised (no further search round)."""
+    import ast
+    for n in ast.walk(node):
+        if isinstance(n, ast.FunctionDef) and n.name == 'callback':
+            n.body.insert(1, ast.parse('if _.cancelled() or _.exception() is not None:\n    return').body[0])
+            return True
+    return False
+
+
 CANARIES = [
+    dict(name='no-search-round-after-failed-probe', target='lbry.dht.protocol.iterative_find:IterativeFinder._schedule_probe',
+         mutate=_no_round_after_failed_probe, job=dict(family='lookup', fn='node_lookup', args=(2,), loop_bound=400, max_depth=60)),
     dict(name='store-accepts-any-port', target='lbry.dht.protocol.protocol:KademliaRPC.store', mutate=_store_port_unchecked,
          job=dict(family='store', fn='store_then_find', args=(), loop_bound=200, max_depth=60)),
     dict(name='page-count-undercounts', target='lbry.dht.protocol.protocol:KademliaRPC.find_value', mutate=_old_page_count,
